@@ -1,6 +1,7 @@
 import os
 from typing import TYPE_CHECKING, Any, Dict, List, Match, Union
 
+from ..util import escape as escape_text
 from ._base import BaseDirective, DirectivePlugin
 
 if TYPE_CHECKING:
@@ -33,13 +34,13 @@ class Include(DirectivePlugin):
         if dest == source_file:
             return {
                 "type": "block_error",
-                "raw": "Could not include self: " + relpath,
+                "raw": "Could not include self: " + escape_text(relpath),
             }
 
         if not os.path.isfile(dest):
             return {
                 "type": "block_error",
-                "raw": "Could not find file: " + relpath,
+                "raw": "Could not find file: " + escape_text(relpath),
             }
 
         with open(dest, "rb") as f:
@@ -70,4 +71,4 @@ class Include(DirectivePlugin):
 
 
 def render_html_include(renderer: "BaseRenderer", text: str, **attrs: Any) -> str:
-    return '<pre class="directive-include">\n' + text + "</pre>\n"
+    return '<pre class="directive-include">\n' + escape_text(text) + "</pre>\n"
